@@ -18,6 +18,59 @@ func newJSONHybridMessage
   ensures severity: m.Severity == (lvl >= 8 ? "ERROR" : "NORMAL")
   ensures message_kept: m.Message == msg
 
+// What of the options reaches a rendered line (the text handler's own level
+// is never consulted: Handle calls its Handle directly); nil options are the
+// zero options.
+spec fn sameRendering(a *slog.HandlerOptions, b *slog.HandlerOptions) bool =
+  (a != nil && a.AddSource) == (b != nil && b.AddSource) &&
+  (a != nil && a.ReplaceAttr != nil) == (b != nil && b.ReplaceAttr != nil) &&
+  (a != nil && b != nil && a.ReplaceAttr != nil ==> a.ReplaceAttr == b.ReplaceAttr)
+  inline
+
+// The constructor: a new handler with no attributes whose level is the
+// options' level (Info without one), and whose pool makes linked pairs that
+// render with the caller's options - the closure handed to the pool is run
+// symbolically at that point.
+func NewJSONHybridHandler
+  requires w != nil
+  at_call syncutil.NewPool prove pool_makes_linked_pairs_with_callers_options:
+    (let v = invoke(arg0) in linked(v) && fresh(v) && sameRendering(textOpts(v.handler), opts))
+  ensures made: h != nil && fresh(h) && h.mu != nil && h.encoder != nil && h.bufTextPool != nil && len(h.textAttrs) == 0
+  ensures configured_level: typeis(h.level, "slog.Level") &&
+    as(h.level, "slog.Level") == ((opts != nil && opts.Level != nil) ? callres("log/slog.Leveler.Level", 0) : 0)
+
+// Handle, single-goroutine view (the text layer and the JSON encoder are
+// assumed, see specs/slog.spec): one pooled pair is taken, the accumulated
+// attributes are added to the record, the pair's text handler renders it
+// once; if that succeeds the encoder is called exactly once, with the mutex
+// held, on {severity of the record's level, the buffer without its final
+// byte}, and its answer is Handle's answer; if it fails nothing is encoded
+// and an error is returned; the pair goes back to the pool last.
+func (*JSONHybridHandler).Handle
+  requires h != nil && h.bufTextPool != nil && h.mu != nil && h.encoder != nil && !locked(deref(h.mu))
+  modifies allof("bytes.Buffer"), deref(h.mu), deref(h.encoder)
+  at_call syncutil.(*Pool).Get assume pool_hands_out_linked_pairs: linked(result0)
+  at_call syncutil.(*Pool).Put prove pairs_go_back_linked: linked(arg1)
+  at_call json.(*Encoder).Encode prove encoder_under_mutex: locked(deref(h.mu)) && arg0 == h.encoder
+  ensures unlocked: !locked(deref(h.mu))
+  ensures rendered_once: calls("syncutil.(*Pool).Get") == 1 && callarg("syncutil.(*Pool).Get", 0) == h.bufTextPool &&
+    calls("slog.(*TextHandler).Handle") == 1 &&
+    callarg("slog.(*TextHandler).Handle", 0) == callres("syncutil.(*Pool).Get", 0).handler
+  ensures attrs_added_before_rendering: calls("slog.(*Record).AddAttrs") == 1 && callarg("slog.(*Record).AddAttrs", 1) == h.textAttrs &&
+    events() >= 3 && evis(1, "slog.(*Record).AddAttrs") && evis(2, "slog.(*TextHandler).Handle")
+  ensures level_kept: callarg("slog.(*TextHandler).Handle", 2).Level == r.Level
+  ensures one_line: callres("slog.(*TextHandler).Handle", 0) == nil ==>
+    calls("json.(*Encoder).Encode") == 1 && err == callres("json.(*Encoder).Encode", 0)
+  ensures no_line_on_text_error: callres("slog.(*TextHandler).Handle", 0) != nil ==> calls("json.(*Encoder).Encode") == 0 && err != nil
+  ensures two_fields: callres("slog.(*TextHandler).Handle", 0) == nil ==>
+    typeis(callarg("json.(*Encoder).Encode", 1), "*jsonHybridMessage") &&
+    (let m = as(callarg("json.(*Encoder).Encode", 1), "*jsonHybridMessage") in
+     let line = bufBytes(deref(callres("syncutil.(*Pool).Get", 0).buffer)) in
+     m.Severity == (r.Level >= 8 ? "ERROR" : "NORMAL") && len(m.Message) == len(line) - 1 &&
+     (forall i: 0 <= i && i < len(line) - 1 ==> m.Message[i] == line[i]))
+  ensures pair_returned_last: calls("syncutil.(*Pool).Put") == 1 && callarg("syncutil.(*Pool).Put", 0) == h.bufTextPool &&
+    callarg("syncutil.(*Pool).Put", 1) == callres("syncutil.(*Pool).Get", 0) && evis(events() - 1, "syncutil.(*Pool).Put")
+
 // A derived handler shares the level, the encoder, the pool and the mutex
 // and carries the parent's attributes followed by the new ones; nothing
 // that existed before the call is written (in particular not the parent's
@@ -42,6 +95,7 @@ spec fn linked(h *bufferedTextHandler) bool =
 func newBufferedTextHandler
   requires l >= 0
   ensures pair_linked: linked(h) && fresh(h)
+  ensures options_kept: textOpts(h.handler) == handlerOpts
 
 func (*bufferedTextHandler).reset
   requires linked(h)
